@@ -245,8 +245,11 @@ class C17(Prop):
     ]
 
     def model_runs(self, tier):
-        return [{"module": "DisplayHook", "cfg": f"DisplayHook_{tier}.cfg", "export": False},
+        runs = [{"module": "DisplayHook", "cfg": f"DisplayHook_{tier}.cfg", "export": False},
                 {"module": "DisplayHook", "cfg": f"DisplayHook_{tier}_gen.cfg"}]
+        if tier == "thorough":
+            runs.append({"module": "DisplayHook", "cfg": "DisplayHook_sim.cfg", "simulate": "num=5000", "depth": 60, "export": False, "timeout": 900})
+        return runs
 
     def nontrivial(self, rec):
         depth = 0
